@@ -3,8 +3,6 @@ use super::*;
 use crate::plain::*;
 use crate::runner::*;
 use crate::term::{self as tm, T};
-use crate::{nat, sym};
-use std::sync::Arc;
 use std::time::Duration;
 
 pub fn def() -> CheckDef {
@@ -26,16 +24,6 @@ pub fn def() -> CheckDef {
     }
 }
 
-fn inputs_of(inp: &PV) -> (RawOH, RawOH) {
-    match inp {
-        PV::List(v) => match (&v[0], &v[1]) {
-            (PV::OH(f), PV::OH(g)) => (f.clone(), g.clone()),
-            _ => unreachable!(),
-        },
-        _ => unreachable!(),
-    }
-}
-
 /// plain model of a result, or None on the paths where the raw data is not even well-formed
 pub fn plain_checked(r: &RawOH) -> Option<Plain> {
     if crate::explore::branch(wf_oh(r)) {
@@ -46,12 +34,12 @@ pub fn plain_checked(r: &RawOH) -> Option<Plain> {
 }
 
 pub fn oracle(inp: &PV, out: &PV) -> T {
-    let (f, g) = inputs_of(inp);
-    let (pf, pg) = (plain_of(&f), plain_of(&g));
+    let (pf, pg) = (plain_of(inp.at(0).oh()), plain_of(inp.at(1).oh()));
     let types_eq = types_equal(&pf, &pf.t, &pg, &pg.s);
     match out {
         PV::None => tm::not(types_eq),
         PV::Some(b) => match &**b {
+            PV::OH(_) if pf.t.len() != pg.s.len() => tm::FALSE,
             PV::OH(r) => match plain_checked(r) {
                 None => tm::FALSE,
                 Some(pr) => {
@@ -67,30 +55,14 @@ pub fn oracle(inp: &PV, out: &PV) -> T {
 }
 
 pub fn job(sf: Shape, sg: Shape, cfg: crate::explore::Cfg, budget: Duration, mandatory: bool) -> Job {
-    let name = format!("compose f={} g={}", sf.show(), sg.show());
-    let compare = !cfg.adversarial();
-    Job {
-        name,
-        cfg,
-        budget,
-        mandatory,
-        body: Arc::new(move || {
-            let f = gen_oh(&sf, "f");
-            let g = gen_oh(&sg, "g");
-            let inputs = PV::List(vec![PV::OH(f.clone()), PV::OH(g.clone())]);
-            decide(Decide {
-                inputs: &inputs,
-                run_sym: &|| sym::c01_compose(&f, &g),
-                run_nat: &|i| {
-                    let (f, g) = inputs_of(i);
-                    nat::c01_compose(&f, &g)
-                },
-                oracle: &oracle,
-                obligations: 3,
-                compare_native: compare,
-            })
-        }),
-    }
+    let c = crate::case!(
+        format!("compose f={} g={}", sf.show(), sg.show()),
+        move || PV::List(vec![PV::OH(gen_oh(&sf, "f")), PV::OH(gen_oh(&sg, "g"))]),
+        c01_compose,
+        oracle,
+        3
+    );
+    case_job(c, cfg, budget, mandatory)
 }
 
 pub fn corner_pairs() -> Vec<(Shape, Shape)> {
